@@ -30,6 +30,10 @@ MetricVal(name, o, t2) ==
   CASE name = "fp_count" -> << <<FP(c), 1>> >>
     [] name = "fn_count" -> << <<FN(c), 1>> >>
     [] name = "vec" -> << <<FP(c), 1>>, IF TP(c) + FP(c) = 0 THEN <<0, 0>> ELSE <<TP(c), 1>> >>
+    (* metrics a user subclass defines / overrides (percent), resolved by NAME on the source's class *)
+    [] name \in {"pct_fpr", "pct_fnr"} ->
+         LET r == MetricRate(IF name = "pct_fpr" THEN "fpr" ELSE "fnr", c)
+         IN << IF r = NaN THEN <<0, 0>> ELSE RMul(RInt(100), r) >>
     [] OTHER -> LET r == MetricRate(name, c) IN << IF r = NaN THEN <<0, 0>> ELSE r >>
 SameQ1(a, b) == IF a[2] = 0 \/ b[2] = 0 THEN a[2] = 0 /\ b[2] = 0 ELSE REq(a, b)
 SameVal(a, b) == Len(a) = Len(b) /\ \A k \in DOMAIN a : SameQ1(a[k], b[k])
